@@ -26,9 +26,9 @@ CLAIMS = {
  'C06': ("Both code generators are rendered from one Generator differing only in transition/restart syntax; the model has one interpreter (attemptI is literally the state machine loop) and interpLex_eq_graphLex relates it to the walk; tail-call and state-machine builds compared verbatim on all requests (streams, partial mode, traces in thorough); stack: long inputs on a small stack and no call to a state function in the state-machine output.",
          "stack usage of the compiled artefact is tested, not proved (partial).",
          "model equality by construction + build-vs-build correspondence + stack tests"),
- 'C07': ("C07_partial_safe (every well-formed graph, look-around included, no certificate): the items a partial lexer yields before None are a leading run of the one-shot items on any extension of the buffer, its span at None is empty at a position from which one-shot lexing reproduces the remaining items; partial_terminates; partial_eq_spec (validated look-free definitions): the partial lexer equals the reference partial lexer specLexP, which waits iff some byte keeps a pattern viable (eagerness); compiled partial lexers over every prefix S[..k] vs the one-shot lexing of S (leading run, empty span, restart position) and vs specLexP for look-free definitions.",
-         "eagerness for look-around definitions ('at the latest one byte later') is covered by the safety theorem and the all-split-points run only, not by a reference lexer; callbacks that bump or inspect the remainder are outside C07_partial_safe (executed, not modelled).",
-         "Lean theorems (safety for all well-formed graphs; equality with a reference partial lexer under the certificate) + all-split-points correspondence"),
+ 'C07': ("C07_partial_safe (every well-formed graph, look-around included, no certificate): the items a partial lexer yields before None are a leading run of the one-shot items on any extension of the buffer, its span at None is empty at a position from which one-shot lexing reproduces the remaining items; partial_terminates; partial_eq_spec / partial_eq_specC (validated definitions whose waiting condition also validates: prefixOKB / prefixOKCB): the partial lexer equals the reference partial lexer, which waits exactly as long as the outcome can still change (some byte keeps a pattern viable, or - with look-around - the winner at the current position depends on what follows); compiled partial lexers over every prefix S[..k] vs the one-shot lexing of S (leading run, empty span, restart position) and vs the reference partial lexer.",
+         "a look-around definition whose graph keeps a redundant late accept (waiting condition does not validate; one such definition in the corpus) is checked against the property's tolerance instead: never commits before the reference, commits at the latest one byte after it; callbacks that bump or inspect the remainder are outside C07_partial_safe (executed, not modelled).",
+         "Lean theorems (safety for all well-formed graphs; equality with a reference partial lexer under the certificate, with and without look-around) + all-split-points correspondence"),
  'C08': ("tie_witness / tieFreeB_sound: the Lean tie search over derivative vectors answers either with a witness string on which two patterns share the top priority, or with a closure proving that no string is matched by two top-priority patterns; both answers are checked by proved validators; the real derive's Disambiguation diagnostics (and the leaves they name) must agree in both directions for every corpus definition.",
          "look-around patterns are decided by the contextual versions (tieC_witness / tieFreeCB_sound: a tie is a string in a context); definitions rejected earlier (nullable pattern, no universal start state) are outside the comparison; definitions are sampled.",
          "Lean theorems (sound + complete tie decision per definition) + correspondence with the derive's diagnostics"),
